@@ -1,6 +1,7 @@
 package main
 
 import (
+	"os"
 	"fmt"
 	"go/constant"
 	"go/token"
@@ -56,49 +57,172 @@ func runC16(p *Prog, r *Report) {
 const viperPkg = "github.com/spf13/viper"
 
 func c16R1R2(p *Prog, r *Report) {
-	// every function that obtains the live config path
-	n := 0
+	// the live config path: what viper.ConfigFileUsed returns, wherever it is carried (locals,
+	// results of module helpers that return it)
+	isM := map[ssa.Value]bool{}
+	var mark func(v ssa.Value)
+	mark = func(v ssa.Value) {
+		if isM[v] {
+			return
+		}
+		isM[v] = true
+		for _, ref := range *v.Referrers() {
+			switch x := ref.(type) {
+			case *ssa.Phi:
+				mark(x)
+			case *ssa.Store:
+				// kept in a local variable (a named result of a function that defers)
+				if al, ok := x.Addr.(*ssa.Alloc); ok && x.Val == v {
+					for _, r2 := range *al.Referrers() {
+						if ld, ok := r2.(*ssa.UnOp); ok && ld.Op == token.MUL {
+							mark(ld)
+						}
+					}
+				}
+			}
+		}
+	}
 	for _, fn := range p.LibFuncs() {
-		var sources []ssa.Value
 		Instrs(fn, func(in ssa.Instruction) {
 			if IsCallTo(in, viperPkg+".ConfigFileUsed") {
 				if v, ok := in.(ssa.Value); ok {
-					sources = append(sources, v)
+					mark(v)
 				}
 			}
 		})
-		if len(sources) == 0 {
+	}
+	for changed := true; changed; {
+		changed = false
+		for _, h := range p.LibFuncs() {
+			nres := h.Signature.Results().Len()
+			for i := 0; i < nres; i++ {
+				all, any := true, false
+				Instrs(h, func(in ssa.Instruction) {
+					if ret, ok := in.(*ssa.Return); ok && i < len(ret.Results) {
+						any = true
+						if !isM[returnedValue(ret, i)] && !isM[ret.Results[i]] {
+							all = false
+						}
+					}
+				})
+				if !all || !any {
+					continue
+				}
+				sites, _ := p.staticCallSites(h)
+				for _, site := range sites {
+					call, ok := site.(*ssa.Call)
+					if !ok {
+						continue
+					}
+					var rv ssa.Value = call
+					if nres > 1 {
+						rv = nil
+						for _, ref := range *call.Referrers() {
+							if e, ok := ref.(*ssa.Extract); ok && e.Index == i {
+								rv = e
+							}
+						}
+					}
+					if rv != nil && !isM[rv] {
+						mark(rv)
+						changed = true
+					}
+				}
+			}
+		}
+	}
+	isFileWrite := func(in ssa.Instruction) bool {
+		n := CalleeName(CallOf(in))
+		return strings.HasPrefix(n, "os.Re") || strings.HasPrefix(n, viperPkg+".WriteConfig") || strings.HasPrefix(n, viperPkg+".SafeWriteConfig") || n == "os.Create" || n == "os.WriteFile" || n == "os.Link"
+	}
+	// the savers: functions that hold the live path and (with their helpers) write files; a
+	// helper of another saver is examined as part of that one
+	var cands []*ssa.Function
+	for _, fn := range p.LibFuncs() {
+		has := false
+		Instrs(fn, func(in ssa.Instruction) {
+			if v, ok := in.(ssa.Value); ok && isM[v] {
+				has = true
+			}
+		})
+		if !has {
 			continue
 		}
-		// only functions that also perform file-system writes are of interest
 		writes := false
-		Instrs(fn, func(in ssa.Instruction) {
-			n := CalleeName(CallOf(in))
-			if strings.HasPrefix(n, "os.Re") || strings.HasPrefix(n, viperPkg+".WriteConfig") || strings.HasPrefix(n, viperPkg+".SafeWriteConfig") || n == "os.Create" || n == "os.WriteFile" || n == "os.Link" {
+		InstrsDeep(fn, 2, func(d DeepInstr) {
+			if CallOf(d.In) != nil && isFileWrite(d.In) {
 				writes = true
 			}
 		})
-		if !writes {
+		if writes {
+			cands = append(cands, fn)
+		}
+	}
+	inner := map[*ssa.Function]bool{}
+	for _, fn := range cands {
+		for _, h := range DeepFuncs(fn, 2) {
+			if h != fn {
+				inner[h] = true
+			}
+		}
+	}
+	// tmpKey: a file name as a term over the live path (two calls of the same naming helper on the
+	// live path name the same file)
+	var tmpKeyP func(path []ssa.Instruction, v ssa.Value, depth int) string
+	tmpKeyP = func(path []ssa.Instruction, v ssa.Value, depth int) string {
+		// a parameter is the argument of the call that led here
+		for len(path) > 0 {
+			prm, ok := v.(*ssa.Parameter)
+			if !ok {
+				break
+			}
+			cc := CallOf(path[len(path)-1])
+			callee := cc.StaticCallee()
+			idx := -1
+			if callee != nil {
+				for j, q := range callee.Params {
+					if q == prm {
+						idx = j
+					}
+				}
+			}
+			if idx < 0 || idx >= len(cc.Args) {
+				break
+			}
+			v = cc.Args[idx]
+			path = path[:len(path)-1]
+		}
+		if isM[v] {
+			return "LIVE"
+		}
+		if depth > 4 {
+			return fmt.Sprintf("?%p", v)
+		}
+		switch x := v.(type) {
+		case *ssa.Const:
+			return x.String()
+		case *ssa.BinOp:
+			return "(" + tmpKeyP(path, x.X, depth+1) + x.Op.String() + tmpKeyP(path, x.Y, depth+1) + ")"
+		case *ssa.Call:
+			if x.Call.IsInvoke() {
+				break
+			}
+			var as []string
+			for _, a := range x.Call.Args {
+				as = append(as, tmpKeyP(path, a, depth+1))
+			}
+			return CalleeName(&x.Call) + "(" + strings.Join(as, ",") + ")"
+		}
+		return fmt.Sprintf("?%p", v)
+	}
+	tmpKey := func(d DeepInstr, v ssa.Value, depth int) string { return tmpKeyP(d.Path, v, depth) }
+	n := 0
+	for _, fn := range cands {
+		if inner[fn] {
 			continue
 		}
 		n++
 		r.Fn(FuncName(fn))
-		isM := map[ssa.Value]bool{}
-		var mark func(v ssa.Value)
-		mark = func(v ssa.Value) {
-			if isM[v] {
-				return
-			}
-			isM[v] = true
-			for _, ref := range *v.Referrers() {
-				if ph, ok := ref.(*ssa.Phi); ok {
-					mark(ph)
-				}
-			}
-		}
-		for _, s := range sources {
-			mark(s)
-		}
 		var bad []string
 		var publish []DeepInstr
 		// the file operations may sit in fn or in module helpers fn hands the paths to
@@ -156,11 +280,21 @@ func c16R1R2(p *Prog, r *Report) {
 		for _, rd := range publish {
 			ren := rd.In.(*ssa.Call)
 			src := ArgForParam(rd.Path, ren.Call.Args[0])
+			srcKey := tmpKey(rd, ren.Call.Args[0], 0)
 			good := false
 			msg := "the source of the publishing rename is not the file written by a dominating, error-checked viper.WriteConfigAs"
 			InstrsDeep(fn, 2, func(wd DeepInstr) {
 				w, ok := wd.In.(*ssa.Call)
-				if !ok || !strings.HasPrefix(CalleeName(&w.Call), viperPkg+".WriteConfigAs") || ArgForParam(wd.Path, w.Call.Args[0]) != src {
+				if ok && strings.HasPrefix(CalleeName(&w.Call), viperPkg+".SafeWriteConfigAs") && !good {
+					msg = "the temporary file is written with viper.SafeWriteConfigAs at " + p.InstrPos(w) + ", which refuses to overwrite an existing file: after one save interrupted between the write and the rename the left-over temporary file makes every later save fail, and the live config file is never updated again"
+				}
+				if !ok || !strings.HasPrefix(CalleeName(&w.Call), viperPkg+".WriteConfigAs") {
+					return
+				}
+				if os.Getenv("DLINT_DEBUG_C16") != "" {
+					fmt.Fprintln(os.Stderr, "C16 writer", tmpKey(wd, w.Call.Args[0], 0), "rename src", srcKey, "dom", DeepDominates(wd, rd))
+				}
+				if ArgForParam(wd.Path, w.Call.Args[0]) != src && (strings.Contains(srcKey, "?") || tmpKey(wd, w.Call.Args[0], 0) != srcKey) {
 					return
 				}
 				if !DeepDominates(wd, rd) {
@@ -174,10 +308,35 @@ func c16R1R2(p *Prog, r *Report) {
 					if !ok {
 						break
 					}
-					if rv := singleReturn(hc.Call.StaticCallee()); rv == nil || !errVals[rv] {
+					h := hc.Call.StaticCallee()
+					if rv := singleReturn(h); rv != nil && errVals[rv] {
+						errVals[hc] = true
+						continue
+					}
+					// `return name, viper.WriteConfigAs(...)`: the last result of every return is the
+					// writer's error; the caller sees it as the last extracted result
+					last := h.Signature.Results().Len() - 1
+					all := last >= 1
+					Instrs(h, func(y ssa.Instruction) {
+						if ret, ok := y.(*ssa.Return); ok && ret.Block() != h.Recover {
+							if len(ret.Results) <= last || !(errVals[returnedValue(ret, last)] || definitelyNonNilError(returnedValue(ret, last))) {
+								all = false
+							}
+						}
+					})
+					if !all {
 						break
 					}
-					errVals[hc] = true
+					found := false
+					for _, ref := range *hc.Referrers() {
+						if e, ok := ref.(*ssa.Extract); ok && e.Index == last {
+							errVals[e] = true
+							found = true
+						}
+					}
+					if !found {
+						break
+					}
 				}
 				// ... and the results of module helpers that wrap it without ever turning a failure
 				// into nil (every return of something that may be nil is on the helper's err == nil side)
@@ -261,6 +420,113 @@ func c16R1R2(p *Prog, r *Report) {
 
 // ---- R3 ------------------------------------------------------------------------------------
 
+// c16Update: one place where a message is remembered in a replay cache: a map update in the
+// updater itself, or in a helper the updater hands the cache to (call is then the call in the
+// updater, and the helper's parameters stand for its arguments).
+type c16Update struct {
+	mu   *ssa.MapUpdate
+	fn   *ssa.Function
+	call *ssa.Call
+}
+
+// c16Caches: the maps the updater makes and remembers messages in, and the remembering updates.
+func c16Caches(upd *ssa.Function) (caches map[ssa.Value]bool, canon func(ssa.Value) ssa.Value, updates []c16Update, cacheParam map[ssa.Value]bool) {
+	caches = map[ssa.Value]bool{}
+	cacheParam = map[ssa.Value]bool{}
+	canon0 := localMapAliases(upd)
+	canon = func(v ssa.Value) ssa.Value {
+		for i := 0; i < 4; i++ {
+			v = canon0(v)
+			if ct, ok := v.(*ssa.ChangeType); ok {
+				v = ct.X
+				continue
+			}
+			break
+		}
+		return v
+	}
+	Instrs(upd, func(in ssa.Instruction) {
+		if mu, ok := in.(*ssa.MapUpdate); ok {
+			if _, isMk := canon(mu.Map).(*ssa.MakeMap); isMk {
+				caches[canon(mu.Map)] = true
+				updates = append(updates, c16Update{mu, upd, nil})
+			}
+		}
+	})
+	Instrs(upd, func(in ssa.Instruction) {
+		call, ok := in.(*ssa.Call)
+		if !ok || call.Call.IsInvoke() {
+			return
+		}
+		h := call.Call.StaticCallee()
+		if !isModuleFn(h) || len(h.Blocks) == 0 || len(h.Params) != len(call.Call.Args) {
+			return
+		}
+		for i, a := range call.Call.Args {
+			if _, isMk := canon(a).(*ssa.MakeMap); !isMk {
+				continue
+			}
+			if _, isMap := a.Type().Underlying().(*types.Map); !isMap {
+				continue
+			}
+			prm := h.Params[i]
+			Instrs(h, func(x ssa.Instruction) {
+				if mu, ok := x.(*ssa.MapUpdate); ok && mu.Map == ssa.Value(prm) {
+					caches[canon(a)] = true
+					cacheParam[prm] = true
+					updates = append(updates, c16Update{mu, h, call})
+				}
+			})
+		}
+	})
+	return
+}
+
+// c16Parts: the values a map update remembers: the value itself, or the fields of a struct value
+// put together just before (`m[k] = entry{text: t, state: s}`).
+func c16Parts(v ssa.Value) []ssa.Value {
+	if derefStruct(v.Type()) == nil {
+		return []ssa.Value{v}
+	}
+	if _, isPtr := v.Type().Underlying().(*types.Pointer); isPtr {
+		return []ssa.Value{v}
+	}
+	ld, ok := v.(*ssa.UnOp)
+	if !ok || ld.Op != token.MUL {
+		return []ssa.Value{v}
+	}
+	al, ok := ld.X.(*ssa.Alloc)
+	if !ok {
+		return []ssa.Value{v}
+	}
+	var parts []ssa.Value
+	for _, ref := range *al.Referrers() {
+		fa, ok := ref.(*ssa.FieldAddr)
+		if !ok {
+			continue
+		}
+		for _, r2 := range *fa.Referrers() {
+			if st, ok := r2.(*ssa.Store); ok && st.Addr == ssa.Value(fa) {
+				parts = append(parts, st.Val)
+			}
+		}
+		// a field whose address is handed to a call is filled there
+		for _, r2 := range *fa.Referrers() {
+			if _, isSt := r2.(*ssa.Store); isSt {
+				continue
+			}
+			if _, isLd := r2.(*ssa.UnOp); isLd {
+				continue
+			}
+			parts = append(parts, fa)
+		}
+	}
+	if len(parts) == 0 {
+		return []ssa.Value{v}
+	}
+	return parts
+}
+
 func c16R3(p *Prog, r *Report) {
 	upd := p.Func("", "", "RunClientUpdater")
 	pub := p.Func("", "", "publish")
@@ -269,19 +535,32 @@ func c16R3(p *Prog, r *Report) {
 		return
 	}
 	r.Fn(FuncName(upd))
-	// cache maps: MakeMap values that receive MapUpdate in this function
-	caches := map[ssa.Value]bool{}
-	canon := localMapAliases(upd)
-	var updates []*ssa.MapUpdate
-	Instrs(upd, func(in ssa.Instruction) {
-		if mu, ok := in.(*ssa.MapUpdate); ok {
-			if _, isMk := canon(mu.Map).(*ssa.MakeMap); isMk {
-				caches[canon(mu.Map)] = true
-				updates = append(updates, mu)
+	caches, canon, updates, cacheParam := c16Caches(upd)
+	isCache := func(v ssa.Value) bool { return cacheParam[v] || caches[canon(v)] }
+	// what is remembered: the JSON text (a string) and the object (an interface value)
+	type part struct {
+		v ssa.Value
+		u c16Update
+	}
+	var texts, objects []part
+	for _, u := range updates {
+		r.Fn(FuncName(u.fn))
+		if _, constKey := stripConv(u.mu.Key).(*ssa.Const); constKey {
+			continue // a fixed entry (time stamp of the saved file), not a remembered message
+		}
+		for _, pv := range c16Parts(u.mu.Value) {
+			t := pv.Type()
+			if fa, isFA := pv.(*ssa.FieldAddr); isFA {
+				t = fa.Type().Underlying().(*types.Pointer).Elem()
+			}
+			if b, ok := t.Underlying().(*types.Basic); ok && b.Kind() == types.String {
+				texts = append(texts, part{pv, u})
+			} else if _, ok := t.Underlying().(*types.Interface); ok {
+				objects = append(objects, part{pv, u})
 			}
 		}
-	})
-	if len(updates) < 2 {
+	}
+	if len(texts) == 0 || len(objects) == 0 {
 		r.Bad("C16.R3", "cache updates in "+FuncName(upd), p.Pos(upd.Pos()), "the updater does not remember both the object and the JSON text of messages")
 		return
 	}
@@ -294,9 +573,24 @@ func c16R3(p *Prog, r *Report) {
 				return
 			}
 			seen[v] = true
-			if lk, ok := v.(*ssa.Lookup); ok && caches[canon(lk.X)] {
+			if lk, ok := v.(*ssa.Lookup); ok && isCache(lk.X) {
 				found = true
 				return
+			}
+			// the entry a range over the cache is at
+			if nx, ok := v.(*ssa.Next); ok {
+				if rg, ok := nx.Iter.(*ssa.Range); ok && isCache(rg.X) {
+					found = true
+					return
+				}
+			}
+			// a local struct variable (`for k, entry := range cache`): what was assigned to it
+			if al, ok := v.(*ssa.Alloc); ok {
+				for _, ref := range *al.Referrers() {
+					if st, ok := ref.(*ssa.Store); ok && st.Addr == ssa.Value(al) {
+						walk(st.Val)
+					}
+				}
 			}
 			if in, ok := v.(ssa.Instruction); ok {
 				var ops []*ssa.Value
@@ -327,35 +621,124 @@ func c16R3(p *Prog, r *Report) {
 			selBlock = sel.Block()
 		}
 	})
-	for _, mu := range updates {
+	seenMu := map[*ssa.MapUpdate]bool{}
+	for _, u := range updates {
+		mu := u.mu
+		if seenMu[mu] {
+			continue
+		}
+		seenMu[mu] = true
 		var extra []string
-		for _, ci := range controllingIfs(mu.Block()) {
-			if selBlock != nil && !(ci.If.Block() == selBlock || selBlock.Dominates(ci.If.Block())) {
-				continue // start-up checks before the loop
-			}
-			cond := ci.If.Cond
-			switch {
-			case isTagConstCmp(cond):
-			case dependsOnCacheLookup(cond):
-			default:
-				// select dispatch: comparison of the select index with a constant
-				if bo, ok := cond.(*ssa.BinOp); ok {
-					if e, ok := bo.X.(*ssa.Extract); ok {
-						if _, isSel := e.Tuple.(*ssa.Select); isSel {
-							continue
+		conds := func(b *ssa.BasicBlock, inUpd bool) {
+			for _, ci := range controllingIfs(b) {
+				if inUpd && selBlock != nil && !(ci.If.Block() == selBlock || selBlock.Dominates(ci.If.Block())) {
+					continue // start-up checks before the loop
+				}
+				cond := ci.If.Cond
+				switch {
+				case isTagConstCmp(cond):
+				case dependsOnCacheLookup(cond):
+				default:
+					// select dispatch: comparison of the select index with a constant
+					if bo, ok := cond.(*ssa.BinOp); ok {
+						if e, ok := bo.X.(*ssa.Extract); ok {
+							if _, isSel := e.Tuple.(*ssa.Select); isSel {
+								continue
+							}
 						}
 					}
+					extra = append(extra, p.InstrPos(ci.If))
 				}
-				extra = append(extra, p.InstrPos(ci.If))
 			}
 		}
+		if u.call != nil {
+			conds(mu.Block(), false)
+			conds(u.call.Block(), true)
+		} else {
+			conds(mu.Block(), true)
+		}
 		which := "object"
-		if b, ok := mu.Value.Type().Underlying().(*types.Basic); ok && b.Kind() == types.String {
+		parts := c16Parts(mu.Value)
+		if len(parts) > 1 {
+			which = "object and JSON text"
+		} else if b, ok := mu.Value.Type().Underlying().(*types.Basic); ok && b.Kind() == types.String {
 			which = "JSON text"
 		}
 		r.Check(len(extra) == 0, "C16.R3", "remember "+which+" in "+FuncName(upd), p.InstrPos(mu),
 			"remembered whenever the message changed (only the fixed non-state tags are exempt)",
 			"remembering the last message is additionally conditional on a test at "+strings.Join(extra, ", ")+": topics failing it are published live but never replayed to a client that asks for all status")
+	}
+	// the remembered object is the one the sender handed over (the state field of the received
+	// update), not something rebuilt from the text: the configuration file is written from it
+	// and read back into the same Go types
+	for _, o := range objects {
+		v := o.v
+		if prm, ok := v.(*ssa.Parameter); ok && o.u.call != nil {
+			for i, hp := range o.u.fn.Params {
+				if hp == prm {
+					v = o.u.call.Call.Args[i]
+				}
+			}
+		}
+		v = stripConv(v)
+		key := "the remembered object is the sender's own (" + FuncName(o.u.fn) + ")"
+		received := func(x ssa.Value) bool {
+			e, ok := x.(*ssa.Extract)
+			if !ok {
+				return false
+			}
+			_, isSel := e.Tuple.(*ssa.Select)
+			return isSel
+		}
+		switch x := v.(type) {
+		case *ssa.Field:
+			if received(x.X) {
+				r.OK("C16.R3", key, p.InstrPos(o.u.mu), "the state field of the received update is stored as it came")
+				continue
+			}
+		case *ssa.UnOp:
+			// the update kept in a local variable: `update := <-ch` ... `update.state`
+			if src, ok := localStructSource(x); ok && received(src) {
+				r.OK("C16.R3", key, p.InstrPos(o.u.mu), "the state field of the received update is stored as it came")
+				continue
+			}
+		}
+		// positive evidence of a rebuilt object: a local filled through its address by a call
+		rebuilt := ""
+		var cell ssa.Value
+		switch x := v.(type) {
+		case *ssa.FieldAddr:
+			cell = x
+		case *ssa.UnOp:
+			if x.Op == token.MUL {
+				cell = x.X
+			}
+		}
+		if cell != nil {
+			root := cell
+			if fa, ok := root.(*ssa.FieldAddr); ok {
+				root = fa.X
+			}
+			if _, isLocal := root.(*ssa.Alloc); isLocal {
+				for _, ref := range *cell.Referrers() {
+					if mi, ok := ref.(*ssa.MakeInterface); ok {
+						for _, r2 := range *mi.Referrers() {
+							if c := CallOf2(r2); c != nil {
+								rebuilt = CalleeName(c) + " at " + p.InstrPos(r2.(ssa.Instruction))
+							}
+						}
+					}
+					if c := CallOf2(ref); c != nil {
+						rebuilt = CalleeName(c) + " at " + p.InstrPos(ref)
+					}
+				}
+			}
+		}
+		if rebuilt != "" {
+			r.Bad("C16.R3", key, p.InstrPos(o.u.mu), "the object remembered for a topic (and later written to the configuration file) is filled in by "+rebuilt+" instead of being the state the sender handed over: a value rebuilt from the JSON text has JSON's shape (embedded structs flattened, numbers as float64), which is not what the start-up code reads back into its Go types")
+		} else {
+			r.Unk("C16.R3", key, p.InstrPos(o.u.mu), "the remembered object could not be traced to the state field of the received update")
+		}
 	}
 	// SENDALL arm: a range over a cache map with a publish call in the loop taking the cached text of the same key
 	good := false
@@ -377,6 +760,55 @@ func c16R3(p *Prog, r *Report) {
 		})
 	})
 	r.Check(good, "C16.R3", "replay arm in "+FuncName(upd), p.Pos(upd.Pos()), "the replay request ranges over the whole cache and publishes the cached text of each key", "no replay of the whole message cache (range over the cache with publish of the cached text) was found")
+}
+
+// localStructSource: ld reads a field of a local struct variable that is assigned as a whole
+// exactly once and whose fields are never stored to separately: the value assigned.
+func localStructSource(ld *ssa.UnOp) (ssa.Value, bool) {
+	if ld.Op != token.MUL {
+		return nil, false
+	}
+	fa, ok := ld.X.(*ssa.FieldAddr)
+	if !ok {
+		return nil, false
+	}
+	al, ok := fa.X.(*ssa.Alloc)
+	if !ok {
+		return nil, false
+	}
+	var src ssa.Value
+	for _, ref := range *al.Referrers() {
+		switch x := ref.(type) {
+		case *ssa.Store:
+			if x.Addr != ssa.Value(al) || src != nil {
+				return nil, false
+			}
+			src = x.Val
+		case *ssa.FieldAddr:
+			for _, r2 := range *x.Referrers() {
+				if st, isSt := r2.(*ssa.Store); isSt && st.Addr == ssa.Value(x) {
+					return nil, false
+				}
+				if _, isLd := r2.(*ssa.UnOp); !isLd {
+					if _, isDbg := r2.(*ssa.DebugRef); !isDbg {
+						return nil, false
+					}
+				}
+			}
+		case *ssa.UnOp, *ssa.DebugRef:
+		default:
+			return nil, false
+		}
+	}
+	return src, src != nil
+}
+
+// CallOf2: the call an instruction makes, nil for anything else.
+func CallOf2(in ssa.Instruction) *ssa.CallCommon {
+	if in == nil {
+		return nil
+	}
+	return CallOf(in)
 }
 
 // ---- R4 ------------------------------------------------------------------------------------
@@ -589,15 +1021,7 @@ func c16More(p *Prog, r *Report) {
 		return
 	}
 	// caches and the parameters they flow into
-	caches := map[ssa.Value]bool{}
-	canon := localMapAliases(upd)
-	Instrs(upd, func(in ssa.Instruction) {
-		if mu, ok := in.(*ssa.MapUpdate); ok {
-			if _, isMk := canon(mu.Map).(*ssa.MakeMap); isMk {
-				caches[canon(mu.Map)] = true
-			}
-		}
-	})
+	caches, canon, _, _ := c16Caches(upd)
 	// every value of the updater that is one of the caches (the map itself, or a read of the
 	// struct field it is kept in)
 	isCacheVal := func(v ssa.Value) bool { return caches[canon(v)] }
